@@ -337,11 +337,14 @@ func (n *RegexNode) finalOptimize() *RegexNode {
 		// we've already outlined is problematic.
 		node := rootNode.Children[0] // skip implicit root capture node
 		atomicByAncestry := true     // the root is implicitly atomic because nothing comes after it (same for the implicit root capture)
+		underAtomic := false         // an explicit atomic group was passed on the way down
 		for {
 			if VerifDisableRewrites&VerifRewriteBumpalong != 0 {
 				break
 			}
 			if node.T == NtAtomic {
+				// a lazy loop below an atomic group is never extended once the group has matched
+				underAtomic = true
 				node = node.Children[0]
 				continue
 			} else if node.T == NtConcatenate {
@@ -350,7 +353,7 @@ func (n *RegexNode) finalOptimize() *RegexNode {
 				continue
 			} else if node.N == math.MaxInt32 &&
 				((node.T == NtOneloop || node.T == NtOneloopatomic || node.T == NtNotoneloop || node.T == NtNotoneloopatomic || node.T == NtSetloop || node.T == NtSetloopatomic) ||
-					((node.T == NtOnelazy || node.T == NtNotonelazy || node.T == NtSetlazy) && !atomicByAncestry)) {
+					((node.T == NtOnelazy || node.T == NtNotonelazy || node.T == NtSetlazy) && !atomicByAncestry && !underAtomic)) {
 
 				if node.Parent != nil && node.Parent.T == NtConcatenate {
 					node.Parent.Children = slices.Insert(node.Parent.Children, 1, &RegexNode{T: NtUpdateBumpalong, Options: node.Options, Parent: node.Parent})
